@@ -22,10 +22,65 @@ func watchdog(seed uint64) *time.Timer {
 	return time.AfterFunc(limit, func() {
 		buf := make([]byte, 1<<20)
 		n := runtime.Stack(buf, true)
-		fmt.Fprintf(os.Stderr, "WATCHDOG seed=%d exceeded %v of real time\n%s\n", seed, limit, buf[:n])
+		first := string(buf[:n])
+		// A goroutine started by the code under test that is executing (not waiting for anything)
+		// now and again two seconds later, in the same function, while the run made no progress for
+		// the whole limit, is a busy loop: no simulator that waits for quiescence can get past it.
+		// It is reported as what it is (the orchestrator turns it into a violation and re-executes
+		// the program); every other hang is harness trouble.
+		if repo := os.Getenv("VERIF_REPO_PREFIX"); repo != "" {
+			if a := spinning(first, repo); len(a) > 0 {
+				time.Sleep(2 * time.Second)
+				n = runtime.Stack(buf, true)
+				b := spinning(string(buf[:n]), repo)
+				for id, fn := range a {
+					if b[id] == fn {
+						fmt.Fprintf(os.Stderr, "WATCHDOG seed=%d exceeded %v of real time\n%s\n", seed, limit, first)
+						fmt.Fprintf(os.Stderr, "BUSY-LOOP seed=%d func=%s\n", seed, fn)
+						os.Exit(3)
+					}
+				}
+			}
+		}
+		fmt.Fprintf(os.Stderr, "WATCHDOG seed=%d exceeded %v of real time\n%s\n", seed, limit, first)
 		fmt.Printf("HARNESS-TROUBLE: watchdog: run with seed %d exceeded %v of real time (goroutine dump on stderr)\n", seed, limit)
 		os.Exit(2)
 	})
+}
+
+// spinning returns goroutine id -> function for goroutines of a dump that are running or runnable,
+// were started by the code under test (no harness frame anywhere on their stack) and have a frame
+// in the repository under test; the function is that of the innermost such frame.
+func spinning(dump, repo string) map[string]string {
+	out := map[string]string{}
+	for _, blk := range strings.Split(dump, "\n\n") {
+		lines := strings.Split(blk, "\n")
+		if len(lines) < 3 || !strings.HasPrefix(lines[0], "goroutine ") {
+			continue
+		}
+		if !strings.Contains(lines[0], "[running") && !strings.Contains(lines[0], "[runnable") {
+			continue
+		}
+		if !strings.Contains(lines[0], "synctest bubble") {
+			continue // helpers outside the simulation (e.g. the supervisor that only lends its logger) tick in real time
+		}
+		if strings.Contains(blk, "/zz_verif_") || strings.Contains(blk, "simkit.watchdog") {
+			continue
+		}
+		id := strings.Fields(lines[0])[1]
+		for i := 1; i+1 < len(lines); i += 2 {
+			loc := strings.TrimSpace(lines[i+1])
+			if strings.HasPrefix(loc, repo+"/") {
+				fn := lines[i]
+				if k := strings.LastIndex(fn, "("); k > 0 {
+					fn = fn[:k]
+				}
+				out[id] = fn
+				break
+			}
+		}
+	}
+	return out
 }
 
 // Harness is implemented by every simulator under /verif/harness.
